@@ -1,0 +1,29 @@
+//go:build verif
+
+// Contracts for package frontend, read by /verif/govc. Not part of a normal build.
+
+package frontend
+
+import (
+	"os"
+)
+
+func old[T any](x T) T { return x }
+
+// specOpenOK: the destination could be opened for writing (create + truncate).
+func specOpenOK(path string) bool {
+	_, err := os.OpenFile(path, os.O_RDWR|os.O_CREATE|os.O_TRUNC, 0666)
+	return err == nil
+}
+
+//@ func Exec
+//@ props C19 C16 C17 C09 C10
+//@ calls[trunc@C10+C19] os.OpenFile : arg1&(os.O_CREATE|os.O_TRUNC) == os.O_CREATE|os.O_TRUNC
+//@ exits[open@C19]   !specOpenOK(assemblyDst) ==> vcExitCode() == 17
+//@ exits[codes@C19]  vcExitCode() != 0
+//@ exits[nowrite@C19] vcWriteCount() == 0 || (vcWriteCount() == 1 && vcExitCode() != 17)
+//@ ensures[origin@C16]   result0 != nil && result1 != nil && result1.DollarPos == result0.DollarPosition
+//@ ensures[symtab@C03]   vcSame(result1.SymTable, result0.SymTable)
+//@ ensures[format@C09]   result1.OutputFormat == result0.OutputFormat
+//@ assigns *
+//@ ensures[raw@C09+C19]  result1.OutputFormat != "WCOFF" ==> vcWriteCount() == 1
